@@ -431,16 +431,16 @@ func extractAdjustSets(a *api.ContainerAdjustment) (map[string]string, []string)
 
 // MExpect is what the model predicts for one request.
 type MExpect struct {
-	Conflict   string              // non-empty: two different plugins set the same item; the request must fail
-	SelfUpdate string              // non-empty: a plugin updated the container being created; the request must fail
-	Views      map[string]*CState  // plugin -> container (create) or resources (update) it must be shown
-	FinalSets  map[string]string   // create: item -> value of its final plugin owner
-	Updates    map[string]*CState  // target -> fields plugins set (accepted writes only)
-	Own        *CState             // update request: requested resources overlaid with the plugins' changes
+	Conflict   string             // non-empty: two different plugins set the same item; the request must fail
+	SelfUpdate string             // non-empty: a plugin updated the container being created; the request must fail
+	Views      map[string]*CState // plugin -> container (create) or resources (update) it must be shown
+	FinalSets  map[string]string  // create: item -> value of its final plugin owner
+	Updates    map[string]*CState // target -> fields plugins set (accepted writes only)
+	Own        *CState            // update request: requested resources overlaid with the plugins' changes
 	OwnChanged bool
-	Dropped    int                 // ignore-failure updates dropped
-	Kinds      map[string]bool     // item kinds that collided (probes)
-	Ambiguous  string              // non-empty: the case is outside what the statements fix; nothing is asserted
+	Dropped    int             // ignore-failure updates dropped
+	Kinds      map[string]bool // item kinds that collided (probes)
+	Ambiguous  string          // non-empty: the case is outside what the statements fix; nothing is asserted
 }
 
 func stateFromOrig(orig []MOp) *CState {
